@@ -175,6 +175,16 @@ func c03Observe(ctx *core.Ctx, consumer, reach string, tv truthVal) (truthy bool
 	case "item":
 		x = "it"
 		data["xs"] = []any{tv.V}
+	case "tagfield":
+		// the value is a struct field reached by its JSON tag (the expression library knows Go names only)
+		x = "it.val"
+		data["xs"] = []c03Tagged{{Val: tv.V}}
+	case "dotindex":
+		x = "xs.0"
+		data["xs"] = []any{tv.V}
+	case "hyphen":
+		x = "o.some-key"
+		data["o"] = map[string]any{"some-key": tv.V}
 	case "ptrfield":
 		// the value is a nil *struct FIELD of struct root data
 		x = "x"
@@ -187,7 +197,7 @@ func c03Observe(ctx *core.Ctx, consumer, reach string, tv truthVal) (truthy bool
 		return c03Judge(consumer, out)
 	}
 	tpl := c03TruthTpl(consumer, x)
-	if reach == "item" {
+	if reach == "item" || reach == "tagfield" {
 		tpl = `<div v-for="it in xs">` + tpl + `</div>`
 	}
 	ctx.Eval(1)
@@ -196,6 +206,10 @@ func c03Observe(ctx *core.Ctx, consumer, reach string, tv truthVal) (truthy bool
 		return false, err, out
 	}
 	return c03Judge(consumer, out)
+}
+
+type c03Tagged struct {
+	Val any `json:"val"`
 }
 
 type c03RootPtr struct {
@@ -319,7 +333,7 @@ func init() {
 		ID:    "C03",
 		Level: "exploration",
 		Rule: "chain part: every sibling list up to the bound over {plain, v-if(T/F), v-else-if(T/F), v-else, v-for over an empty / one-element list, v-else / v-else-if members that are themselves loops} x separators {none, whitespace, comment, both} x placements {top, div, v-for x2, <template> members, nested in a taken branch, deep}; oracle: reference chain evaluator gives the ordered marker list. " +
-			"truth part: 46 Go values x 3 ways of reaching them x 6 consumers (v-if, v-else-if, !x, v-show, :attr, :class object); oracles: documented table and agreement between consumers. non-trivial = chain of >=2 members with defined semantics, or any truth case",
+			"truth part: 46 Go values x 6 ways of reaching them (variable, nested key, loop item, struct field by JSON tag, dotted index, hyphenated key) x 6 consumers (v-if, v-else-if, !x, v-show, :attr, :class object); oracles: documented table and agreement between consumers. non-trivial = chain of >=2 members with defined semantics, or any truth case",
 		Bounds:      map[string]string{"quick": "sibling lists of length <= 5", "thorough": "sibling lists of length <= 6"},
 		Assumptions: []string{"what an orphan v-else/v-else-if renders, and members after a v-else, are unconstrained (only plain siblings are checked there)", "NaN and the string \"false\" are checked for uniformity only"},
 		Decode:      core.DecodeAs[c03Case](),
@@ -328,8 +342,8 @@ func init() {
 				if tv.Name == "nil_ptr" {
 					emit(&c03Case{Part: "truth", Val: tv.Name, Reach: "ptrfield"})
 				}
-				for _, r := range []string{"var", "nested", "item"} {
-					if r == "item" && tv.Name == "missing" {
+				for _, r := range []string{"var", "nested", "item", "tagfield", "dotindex", "hyphen"} {
+					if (r == "item" || r == "tagfield" || r == "dotindex" || r == "hyphen") && tv.Name == "missing" {
 						continue
 					}
 					emit(&c03Case{Part: "truth", Val: tv.Name, Reach: r})
